@@ -98,16 +98,16 @@ func (d *Data) Encode() ([]byte, error) {
 		suffix := entry.Key[lcp:]
 
 		// lcp
-		w.Write(binary.LittleEndian, uint16(lcp))
+		w.Write(binary.LittleEndian, uint32(lcp))
 
 		// suffix length
-		w.Write(binary.LittleEndian, uint16(len(suffix)))
+		w.Write(binary.LittleEndian, uint32(len(suffix)))
 
 		// suffix
 		w.Write(binary.LittleEndian, []byte(suffix))
 
 		// value length
-		w.Write(binary.LittleEndian, uint16(len(entry.Value)))
+		w.Write(binary.LittleEndian, uint32(len(entry.Value)))
 
 		// value
 		w.Write(binary.LittleEndian, entry.Value)
@@ -154,11 +154,11 @@ func (d *Data) Decode(data []byte) error {
 	var prevKey string
 	for reader.Len() > 0 {
 		// lcp
-		var lcp uint16
+		var lcp uint32
 		r.Read(binary.LittleEndian, &lcp)
 
 		// suffix length
-		var suffixLen uint16
+		var suffixLen uint32
 		r.Read(binary.LittleEndian, &suffixLen)
 
 		// suffix
@@ -166,7 +166,7 @@ func (d *Data) Decode(data []byte) error {
 		r.Read(binary.LittleEndian, &suffix)
 
 		// value length
-		var valueLen uint16
+		var valueLen uint32
 		r.Read(binary.LittleEndian, &valueLen)
 
 		// value
